@@ -2,7 +2,7 @@
 import numpy as np
 import segyio
 
-from .. import env, core, gen, conv, spec, mksegy, view, files, readcheck, synth
+from .. import env, core, gen, conv, spec, mksegy, view, files, readcheck, synth, writercorr
 from seismic_zfp.read import SgzReader  # noqa: E402
 import seismic_zfp  # noqa: E402
 
@@ -84,6 +84,12 @@ def run(ctx):
         write_side(ctx, rng, k)
     model = core.Model()
     try:
+        # K: 2D producer placement + hash feed under the symbolic compressor vs Model/Writer (cells2d, hashFeed2d)
+        for k in range(30 if ctx.quick else 600):
+            n, bs, q = gen.geometry_2d(rng, max_voxels=40_000)
+            n = (1, max(n[1], 2), max(n[2], 2))
+            ctx.case(('writer2d', n, bs, q))
+            writercorr.check(ctx, model, n, bs, q, 'segy')
         for fi in files.read_files(ctx, rng, 30 if ctx.quick else 500, kinds=('2d',), max_voxels=60_000):
             s = readcheck.ReadSession(fi)
             try:
